@@ -233,6 +233,8 @@ pub struct SideFx {
 }
 
 pub struct RunResult {
+    /// a site was rejected at the call after its tag had already been attached (see `run_bytes`)
+    pub tag_residue: bool,
     pub parse_err: Option<String>,
     pub outcomes: Vec<(u8, String, OpOutcome)>,
     pub tails: Vec<TailOutcome>,
@@ -504,10 +506,15 @@ pub fn inject_site<'a>(module: &mut Module<'a>, func: u32, api: Api, site: &Site
                     panic!("harness: site not reachable by iterator");
                 }
                 set_mode_cursor(&mut it, site.mode);
+                // the tag is attached before or after the body (half of the tagged sites each)
+                let tag_first = site.tag.is_some() && site.magic % 2 == 1;
+                if let (true, Some(t)) = (tag_first, &site.tag) {
+                    it.append_to_tag(t.clone());
+                }
                 for op in ops {
                     it.inject(op);
                 }
-                if let Some(t) = &site.tag {
+                if let (false, Some(t)) = (tag_first, &site.tag) {
                     it.append_to_tag(t.clone());
                 }
                 if is_func_mode {
@@ -516,10 +523,14 @@ pub fn inject_site<'a>(module: &mut Module<'a>, func: u32, api: Api, site: &Site
                 }
             } else if api == Api::IterAt || is_empty_mode {
                 set_mode_at(&mut it, site.mode, loc);
+                let tag_first = site.tag.is_some() && site.magic % 2 == 1;
+                if let (true, Some(t)) = (tag_first, &site.tag) {
+                    it.append_tag_at(t.clone(), loc);
+                }
                 for op in ops {
                     it.add_instr_at(loc, op);
                 }
-                if let Some(t) = &site.tag {
+                if let (false, Some(t)) = (tag_first, &site.tag) {
                     it.append_tag_at(t.clone(), loc);
                 }
             } else {
@@ -1135,6 +1146,7 @@ pub fn run_bytes(sc: &Scenario, base_bytes: &[u8]) -> RunResult {
     }
     let mut model = Model::new(&sc.base);
     let mut res = RunResult {
+        tag_residue: false,
         parse_err: None,
         outcomes: vec![],
         tails: vec![],
@@ -1191,6 +1203,13 @@ pub fn run_bytes(sc: &Scenario, base_bytes: &[u8]) -> RunResult {
                     },
                     _ => (*op).clone(),
                 };
+                // a rejected site whose tag had been attached BEFORE its body: attaching the tag created an
+                // (empty) request that the rejection of the body leaves behind
+                if let Op::Inject { sites, .. } = op {
+                    if rejected.iter().any(|(j, _)| sites.get(*j).map_or(false, |s| s.tag.is_some() && s.magic % 2 == 1)) {
+                        res.tag_residue = true;
+                    }
+                }
                 model.apply(&op_eff);
                 res.ops_applied += 1;
                 let ok = match (&expected, &got) {
